@@ -226,6 +226,15 @@ func VerifStubDecoderDecode(d *_cbor.Decoder, dest any) error {
 		st.pos += hlen
 		return nil
 	}
+	if len(st.data) > 0 {
+		if v, ok := VerifDeposits[&st.data[0]]; ok {
+			if v == nil || !verifCopyShape(v, dest) {
+				return errVerifStub
+			}
+			st.pos = len(st.data)
+			return nil
+		}
+	}
 	if VerifDepositValue != nil {
 		// typed decode of what the harness encoded: succeeds iff the destination has the same
 		// flattened field list (the array shape of a toarray struct / a bare scalar)
@@ -257,3 +266,10 @@ func VerifStubEncode(data any) ([]byte, error) {
 	}
 	return verifOpaqueBytes("enc", data), nil
 }
+
+// VerifDeposits: per-input decode results prepared by the harness, keyed by the address of
+// the input's first byte ("decoding these bytes yields this value"; a nil entry = the bytes
+// do not decode).
+var VerifDeposits = map[*byte]any{}
+
+func VerifDepositFor(data []byte, v any) { VerifDeposits[&data[0]] = v }
